@@ -76,8 +76,21 @@ impl Abs for char {
         match rng.gen_range(0..6) { 0 => '\0', 1 => '\u{d7ff}', 2 => '\u{e000}', 3 => '\u{10ffff}', 4 => rng.gen_range('a'..='z'), _ => rng.gen() }
     }
 }
-impl Abs for f32 { fn to_abs(&self) -> Value { crate::abs::vf32(*self) } fn gen(rng: &mut StdRng, _: u32) -> Self { f32::from_bits(rng.gen()) } }
-impl Abs for f64 { fn to_abs(&self) -> Value { crate::abs::vf64(*self) } fn gen(rng: &mut StdRng, _: u32) -> Self { f64::from_bits(rng.gen()) } }
+impl Abs for f32 {
+    fn to_abs(&self) -> Value { crate::abs::vf32(*self) }
+    fn gen(rng: &mut StdRng, _: u32) -> Self {
+        const SPECIAL: [u32; 12] = [0, 0x8000_0000, 0x7f80_0000, 0xff80_0000, 0x7fc0_0000, 0x7f80_0001, 0xffff_ffff, 1, 0x007f_ffff, 0x0080_0000, 0x7f7f_ffff, 0x3f80_0000];
+        if rng.gen_range(0..3) == 0 { f32::from_bits(SPECIAL[rng.gen_range(0..SPECIAL.len())]) } else { f32::from_bits(rng.gen()) }
+    }
+}
+impl Abs for f64 {
+    fn to_abs(&self) -> Value { crate::abs::vf64(*self) }
+    fn gen(rng: &mut StdRng, _: u32) -> Self {
+        const SPECIAL: [u64; 12] = [0, 0x8000_0000_0000_0000, 0x7ff0_0000_0000_0000, 0xfff0_0000_0000_0000, 0x7ff8_0000_0000_0000, 0x7ff0_0000_0000_0001,
+                                    0xffff_ffff_ffff_ffff, 1, 0x000f_ffff_ffff_ffff, 0x0010_0000_0000_0000, 0x7fef_ffff_ffff_ffff, 0x3ff0_0000_0000_0000];
+        if rng.gen_range(0..3) == 0 { f64::from_bits(SPECIAL[rng.gen_range(0..SPECIAL.len())]) } else { f64::from_bits(rng.gen()) }
+    }
+}
 
 fn gen_string(rng: &mut StdRng) -> String {
     let pool = ["", "a", "\u{e9}", "\u{20ac}", "\u{1f600}", "hello", "x\"y\\z"];
@@ -168,12 +181,32 @@ impl Abs for core::time::Duration {
 }
 impl Abs for std::time::SystemTime {
     fn to_abs(&self) -> Value { self.duration_since(std::time::UNIX_EPOCH).unwrap().to_abs() }
-    fn gen(rng: &mut StdRng, _: u32) -> Self { std::time::UNIX_EPOCH + core::time::Duration::new(rng.gen_range(0..1u64 << 40), rng.gen_range(0..1_000_000_000)) }
+    fn gen(rng: &mut StdRng, _: u32) -> Self {
+        match rng.gen_range(0..6) { 0 => std::time::UNIX_EPOCH, 1 => std::time::UNIX_EPOCH + core::time::Duration::new(0, 999_999_999), 2 => std::time::UNIX_EPOCH + core::time::Duration::new(u32::MAX as u64 + 1, 0),
+                                    _ => std::time::UNIX_EPOCH + core::time::Duration::new(rng.gen_range(0..1u64 << 40), rng.gen_range(0..1_000_000_000)) }
+    }
 }
 use std::net::*;
 fn raw(b: &[u8]) -> Value { json!({"k":"bytes","b":bytes(b)}) }
-impl Abs for Ipv4Addr { fn to_abs(&self) -> Value { raw(&self.octets()) } fn gen(rng: &mut StdRng, _: u32) -> Self { Ipv4Addr::from(rng.gen::<[u8; 4]>()) } }
-impl Abs for Ipv6Addr { fn to_abs(&self) -> Value { raw(&self.octets()) } fn gen(rng: &mut StdRng, _: u32) -> Self { Ipv6Addr::from(rng.gen::<[u8; 16]>()) } }
+impl Abs for Ipv4Addr {
+    fn to_abs(&self) -> Value { raw(&self.octets()) }
+    fn gen(rng: &mut StdRng, _: u32) -> Self {
+        match rng.gen_range(0..8) { 0 => Ipv4Addr::UNSPECIFIED, 1 => Ipv4Addr::BROADCAST, 2 => Ipv4Addr::LOCALHOST, 3 => Ipv4Addr::new(10, 0, 0, 1), 4 => Ipv4Addr::new(224, 0, 0, 251),
+                                    _ => Ipv4Addr::from(rng.gen::<[u8; 4]>()) }
+    }
+}
+impl Abs for Ipv6Addr {
+    fn to_abs(&self) -> Value { raw(&self.octets()) }
+    fn gen(rng: &mut StdRng, d: u32) -> Self {
+        // the address classes std treats specially, besides arbitrary bit patterns
+        match rng.gen_range(0..12) {
+            0 => Ipv6Addr::UNSPECIFIED, 1 => Ipv6Addr::LOCALHOST, 2 => Ipv4Addr::gen(rng, d).to_ipv6_mapped(), 3 => Ipv4Addr::gen(rng, d).to_ipv6_compatible(),
+            4 => Ipv6Addr::from([0xff; 16]), 5 => Ipv6Addr::new(0xfe80, 0, 0, 0, rng.gen(), rng.gen(), rng.gen(), rng.gen()), 6 => Ipv6Addr::new(0xff02, 0, 0, 0, 0, 0, 0, 1),
+            7 => Ipv6Addr::new(0x64, 0xff9b, 0, 0, 0, 0, rng.gen(), rng.gen()), 8 => Ipv6Addr::new(0x2002, rng.gen(), rng.gen(), 0, 0, 0, 0, 1),
+            _ => Ipv6Addr::from(rng.gen::<[u8; 16]>())
+        }
+    }
+}
 impl Abs for IpAddr {
     fn to_abs(&self) -> Value { match self { IpAddr::V4(a) => json!({"k":"var","i":0,"x":a.to_abs()}), IpAddr::V6(a) => json!({"k":"var","i":1,"x":a.to_abs()}) } }
     fn gen(rng: &mut StdRng, d: u32) -> Self { if rng.gen() { IpAddr::V4(Ipv4Addr::gen(rng, d)) } else { IpAddr::V6(Ipv6Addr::gen(rng, d)) } }
